@@ -5,6 +5,7 @@ import (
 	"bytes"
 	"fmt"
 	"io"
+	"os"
 	"path/filepath"
 	"strings"
 	"testing"
@@ -211,7 +212,7 @@ func TestC19(t *testing.T) {
 			t.Fatal(err)
 		}
 		if strings.HasPrefix(c.Desc, "volume:") {
-			volume(4400<<20, map[string]bool{})
+			volume(13500<<20, map[string]bool{})
 			if ev.Violations() > 0 {
 				t.Fail()
 			}
@@ -223,7 +224,7 @@ func TestC19(t *testing.T) {
 		fmt.Println("REPLAY case passed")
 		return
 	}
-	ev.Rule("inputs: rapid-generated valid files of the three formats (C05/C06 grammar), rapid structure-aware mutations and truncations of those and of the repository/built/hostile seeds, polyglots (signature of one format + body of another, RIFF/WEBP header wrapping another file, PNG signature + 4 GiB chunk so the PNG loader drains the source, JPEG SOI+COM followed by another file, concatenations), random bytes, empty input; three 4 MiB-header files loaded over and over until > 1 GiB (thorough > 4 GiB) has passed through autometa in the process; the auto loader additionally under short-read schedules, with the last bytes arriving together with EOF, and with reads that return nothing now and then. Oracle: the first of pngmeta/jpegmeta/webpmeta.Load that succeeds on the complete input (differential, incl. ICC error text), else (nil, error); the stream always replays the input; when autometa reads from a standard-library reader type, the matching specific loader is also given that reader type and must agree with itself on the bare input. non-trivial = distinct input on which an earlier candidate consumed > 8 bytes before failing, or which a non-first loader accepts")
+	ev.Rule("inputs: rapid-generated valid files of the three formats (C05/C06 grammar), rapid structure-aware mutations and truncations of those and of the repository/built/hostile seeds, polyglots (signature of one format + body of another, RIFF/WEBP header wrapping another file, PNG signature + 4 GiB chunk so the PNG loader drains the source, JPEG SOI+COM followed by another file, concatenations), random bytes, empty input; three 4 MiB-header files loaded over and over until > 1 GiB (thorough > 13 GiB, more than 2^32 bytes per loader) has passed through autometa in the process; the auto loader additionally under short-read schedules, with the last bytes arriving together with EOF, and with reads that return nothing now and then. Oracle: the first of pngmeta/jpegmeta/webpmeta.Load that succeeds on the complete input (differential, incl. ICC error text), else (nil, error); the stream always replays the input; when autometa reads from a standard-library reader type, the matching specific loader is also given that reader type and must agree with itself on the bare input. non-trivial = distinct input on which an earlier candidate consumed > 8 bytes before failing, or which a non-first loader accepts")
 	ev.Assume("both sides are prism code on the same bytes; independence of the specific loaders comes from C05/C06")
 	all := append(seeds.All(), seeds.Hostile()...)
 	bad := map[string]bool{}
@@ -277,7 +278,13 @@ func TestC19(t *testing.T) {
 		}
 	}
 	ev.Class("large-header", int64(3*len(ths)*2))
-	volume(int64(ev.Pick(1100, 4400))<<20, bad)
+	// quick: > 1 GiB in total; thorough (once, not in every shard): > 13 GiB, so that each of the three loaders has
+	// seen more than 2^32 bytes
+	vol := int64(1100) << 20
+	if sfx := os.Getenv("VERIF_SHARD_SUFFIX"); ev.Thorough() && (sfx == "" || sfx == ".shard0") {
+		vol = 13500 << 20
+	}
+	volume(vol, bad)
 	otherEnds := mut.Ends(all[4].Map, len(all[4].Data))
 	ev.RapidChecks(ev.Pick(5000, 200000))
 	ev.RapidSeed(19)
